@@ -264,8 +264,8 @@ def check(ctx, run):
     for g, field in GETTERS.items():
         f = prog.fn("%s::%s" % (CLS, g))
         run.analysed(f)
-        rets = [render(f, f.node(n.get("value"))) for n in f.walk() if n["k"] == "ReturnStmt"]
-        run.ob("R2", "getter %s returns %s" % (g, field), f.site, rets == [field], witness=rets)
+        rets = getter_fold(prog, f, field)
+        run.ob("R2", "getter %s returns %s (folded)" % (g, field), f.site, rets == 424242, witness=rets)
     # filter handlers (which handler an option literal reaches is decided by the parse fold above)
     for opt, (lst, s, x) in FILTER_OPTS.items():
         h = prog.fn(CLS + "::" + PREFIX_OPTS[opt][0])
@@ -420,8 +420,13 @@ def check(ctx, run):
     run.ob("R2", "no assignment of the output kind without a matching literal", so.site, "<none>" not in rows, witness=rows.get("<none>"))
     for g, en in (("isEclipseOutput", "OUTPUT_ECLIPSE"), ("isJUnitOutput", "OUTPUT_JUNIT"), ("isTeamCityOutput", "OUTPUT_TEAMCITY")):
         f = prog.fn("%s::%s" % (CLS, g))
-        rets = [render(f, f.node(n.get("value"))) for n in f.walk() if n["k"] == "ReturnStmt"]
-        run.ob("R2", "%s tests %s" % (g, en), f.site, rets in (["(outputType_ == %s)" % en], ["(%s == outputType_)" % en]), witness=rets)
+        run.analysed(f)
+        kinds = {e_["name"]: e_["v"] for enm in prog.enums.values() for e_ in enm["enumerators"] if e_["name"].startswith("OUTPUT_")}
+        if en not in kinds:
+            raise AnalysisBroken("C12.R2: enumerator %s not found" % en)
+        got = {k_: getter_fold(prog, f, "outputType_", token=v_) for k_, v_ in kinds.items()}
+        ok = all(isinstance(r_, (int, bool)) and int(bool(r_)) == (1 if k_ == en else 0) for k_, r_ in got.items())
+        run.ob("R2", "%s folded over every output kind: true for %s only" % (g, en), f.site, ok, witness=got)
     # runner consumers
     init = prog.fn("CommandLineTestRunner::initializeTestRun")
     run.analysed(init)
@@ -600,13 +605,28 @@ def check(ctx, run):
     # ---------------- R4 (runner) -------------------------------------------
     rm = prog.fn("CommandLineTestRunner::runAllTestsMain")
     run.analysed(rm)
-    for p in enumerate_paths(rm):
-        val = p.val()
-        pa_v = [v for k, v in val.items() if k.startswith("parseArguments(")]
-        names = [render(rm, c) for c in path_calls(prog, rm, p)]
-        ran = names.count("runAllTests()")
-        ok = len(pa_v) == 1 and ran == (1 if pa_v[0] else 0)
-        run.ob("R4", "runner runs tests iff parseArguments succeeded [%s]" % p.describe(rm), rm.site, ok, witness={"runAllTests": ran})
-    ini = local_inits(rm)
-    tr0 = const_value(rm, ini["testResult"]) if "testResult" in ini else None
-    run.ob("R4", "a rejected command line yields a non-zero result", rm.site, tr0 not in (None, 0), witness=tr0)
+    # runAllTestsMain folded against recording stubs: the tests run exactly when the command line was accepted, the result of the run
+    # is the result returned, and a rejected command line gives a non-zero result
+    for accepted, run_result in ((1, 0), (1, 3), (0, 0)):
+        seq = []
+        hooks = string_hooks({"CommandLineTestRunner::parseArguments": lambda *a_: (seq.append("parse"), accepted)[1], "CommandLineTestRunner::runAllTests": lambda *a_: (seq.append("run"), run_result)[1],
+                              "TestRegistry::installPlugin": lambda *a_: 0, "TestRegistry::removePluginByName": lambda *a_: 0, "TestRegistry::getFirstPlugin": lambda *a_: 70,
+                              "SetPointerPlugin::SetPointerPlugin": lambda *a_: 0, "SetPointerPlugin::~SetPointerPlugin": lambda *a_: 0})
+        ev = Evaluator(prog, rm, env={"registry_": 50}, calls=hooks)
+        ev.pass_object = True
+        ev.heap_mode = True
+        ev.optional_stubs = set(hooks)
+        try:
+            ev.run_blocks(rm.entry, max_steps=600)
+            r = getattr(ev, "ret", None)
+        except Unknown as u:
+            raise AnalysisBroken("C12.R4: runAllTestsMain cannot be folded: %s" % u)
+        why = ""
+        if seq != (["parse", "run"] if accepted else ["parse"]):
+            why = "with the command line %s the runner does %s" % ("accepted" if accepted else "rejected", seq)
+        elif accepted and r != run_result:
+            why = "the run's result %d is returned as %s" % (run_result, r)
+        elif not accepted and (not isinstance(r, int) or r == 0):
+            why = "a rejected command line yields %s" % (r,)
+        run.ob("R4", "runAllTestsMain folded [command line %s, run result %d]: tests run iff the arguments were accepted; a rejected command line yields a non-zero result" % ("accepted" if accepted else "rejected", run_result), rm.site, not why,
+               witness={"calls": seq, "returns": r}, what=why)
